@@ -55,9 +55,16 @@ func c19Twin(label string, run func() string) {
 //verif:shard-thorough 8 4
 func Harness_C19_DatabaseCreate() {
 	same := nd.Bool("tables-and-columns-share-source-lines")
+	// two tables of the same depth whose names differ only in case
+	twin := nd.Bool("table-names-differ-only-in-case")
 	c19Twin("dbscripts:create-byte-identical", func() string {
 		v := MakeDatabaseScriptView("t", nil)
-		return v.GenerateDatabaseScriptCreate(c19Tables(same), "postgres", "App")
+		t := c19Tables(same)
+		if twin {
+			t["ALFA"] = t["mid"]
+			delete(t, "mid")
+		}
+		return v.GenerateDatabaseScriptCreate(t, "postgres", "App")
 	})
 }
 
